@@ -78,6 +78,12 @@ ALLOWED_MUTABLE_DEFAULTS = {
 }
 
 
+IMMUTABLE_CTORS = {"str", "int", "float", "bool", "tuple", "frozenset", "bytes", "property", "staticmethod", "classmethod", "namedtuple", "NamedTuple", "TypeVar"}
+ALLOWED_CLASS_OBJECTS = {
+    ("sqllineage.config", "_SQLLineageConfigLoader", "config"): "read-only table of the known settings (name -> (type, default)); no store or mutation site anywhere (checked by the rules above)",
+}
+
+
 def scan(repo, pid="C12"):
     out = []
 
@@ -152,6 +158,20 @@ def scan(repo, pid="C12"):
                     ob(f"{m.name}:{qual}:{text}", True, "allow-listed site (CLI drawing entry point / import-time constant patch), not a per-run channel", "no_module_level_mutable_state")
                 else:
                     ob(f"{m.name}:{qual}:{text}", False, f"store/mutation rooted at module-level name `{r}`", "no_module_level_mutable_state")
+    # R7: class-level objects shared by every instance (a channel between runs / providers even when only a library mutates them)
+    for m in sorted(repo.modules.values(), key=lambda x: x.name):
+        if m.name in repo.ghost:
+            continue
+        for ci in sorted(m.classes.values(), key=lambda c: c.name):
+            for nm, val in sorted(ci.attrs.items()):
+                v = val[0] if isinstance(val, tuple) else val
+                if not isinstance(v, ast.AST):
+                    continue
+                shared = _is_mutable_literal(v) or (isinstance(v, ast.Call) and not (isinstance(v.func, ast.Name) and v.func.id in IMMUTABLE_CTORS))
+                if not shared or nm.isupper() or nm.startswith("__"):
+                    continue
+                key = (m.name, ci.name, nm)
+                ob(f"{m.name}:{ci.name}:class attribute {nm}", key in ALLOWED_CLASS_OBJECTS, ALLOWED_CLASS_OBJECTS.get(key) or f"class-level object `{nm} = {ast.unparse(v)[:40]}` is shared by every instance of {ci.name}", "no_shared_class_state")
     # R5: who touches the session map
     allowed_writers = {"MetaDataProvider.__init__", "MetaDataProvider.register_session_metadata", "MetaDataProvider.deregister_session_metadata"}
     allowed_callers = {"MetaDataSession.__exit__", "MetaDataSession.register_session_metadata", "LineageRunner._eval"}
